@@ -45,6 +45,9 @@ def rand_decimal(rng):
 def gen_tree(rng, places, depth):
     if depth <= 0 or rng.random() < 0.25:
         return ["p", rng.choice(places)]
+    if rng.random() < 0.1:
+        # unary minus / abs of a sub-tree (often of the destination itself)
+        return [rng.choice(["neg", "abs"]), gen_tree(rng, places, depth - 1)]
     op = rng.choice(FIX_OPS)
     left = gen_tree(rng, places, depth - 1)
     r = rng.random()
@@ -76,6 +79,21 @@ def gen_case(rng):
         t = gen_tree(rng, places, d)
         if t[0] == "p" and rng.random() < 0.6:
             t = ["f", rand_decimal(rng)]
+        if rng.random() < 0.1:
+            # the destination under a unary operator in the right operand
+            t = ["b", rng.choice(["+", "-", "*"]),
+                 rng.choice([["p", rng.choice(places)],
+                             ["f", rand_decimal(rng)]]),
+                 [rng.choice(["neg", "abs"]), ["p", dest]]]
+        if rng.random() < 0.12:
+            # constants whose scaled value sits around the 32-bit immediate
+            # boundaries (2^31 = 21474.83648, 2^32 = 42949.67296)
+            t = rng.choice([["f", "21474.83647"], ["f", "21474.83648"],
+                            ["f", "30000.5"], ["f", "42949.67295"],
+                            ["f", "42949.67296"], ["f", "-21474.83648"],
+                            ["f", "-21474.83649"], ["c", 21474],
+                            ["c", 21475], ["c", 25000], ["c", 42949],
+                            ["c", 42950], ["c", -21475]])
         stmts.append(["set", dest, t])
     # comparisons mixing fixed-point and integer operands (as they are)
     pivots = []
@@ -193,6 +211,8 @@ def triggers(spec, stmt, store):
                 found.append("signed-div-mod-negative-operand")
             walk(L)
             walk(R)
+        elif t[0] in ("neg", "abs"):
+            walk(t[1])
     walk(tree)
     n = node(tree)
     dfixed = spec.info(dest)[2]
